@@ -145,8 +145,7 @@ func runFaultMatrix(t *testing.T, rc *RunCtx) {
 		plan.Set("rules", kn, "empty")
 		whole = true
 	case "store-fetch-error":
-		plan.Set("store-fetch", kn, "error")
-		whole = fc.Kind == "atts" && fc.Size > 1
+		plan.Set("store-fetch", kn, "error") // only this key's record cannot be read
 	case "store-write-error":
 		plan.Set("store-write", kn, "error")
 		plan.Set("store-write", "", "error") // batch store has no key
@@ -165,12 +164,10 @@ func runFaultMatrix(t *testing.T, rc *RunCtx) {
 		w.s.Direct(func() {
 			_ = w.inst.Rules.VerifStore().Store(context.Background(), storeKey(pop.Accts[e.Acct].PubKey, action), []byte{0x01, 1, 2, 3})
 		})
-		whole = fc.Kind == "atts" && fc.Size > 1
 	case "record-undecodable":
 		w.s.Direct(func() {
 			_ = w.inst.Rules.VerifStore().Store(context.Background(), storeKey(pop.Accts[e.Acct].PubKey, action), []byte{0x7f, 0xff, 0x81, 0x03, 0x01, 0x01})
 		})
-		whole = fc.Kind == "atts" && fc.Size > 1
 	case "store-closed":
 		w.s.Direct(func() { _ = w.inst.Rules.Close(context.Background()) })
 		w.inst.Closed = true
@@ -278,11 +275,7 @@ func runFaults(t *testing.T, rc *RunCtx) {
 				}
 				site := "store-" + p.Label
 				plan.Touch(site, "error", k)
-				touch(p.Task.ID, k)
-				// A failed read in the batch path fails the whole batch.
-				if p.Task.ID < len(w.ops) && len(w.ops[p.Task.ID].Entries) > 1 && w.ops[p.Task.ID].Kind == "atts" {
-					touch(p.Task.ID, "*")
-				}
+				touch(p.Task.ID, k) // a failed read touches that key only; a failed batch write (no key) touches every position
 				return Resume{Err: ErrInjected, Fault: site}
 			}
 		case KRulesPre:
